@@ -200,7 +200,7 @@ def conduit_rules(ctx, c, cfg):
         ws = [x for x in pw.calls if x.is_method(COND, "write")]
         if len(ws) != 1:
             raise AnchorMissing("poll_write: expected one Conduit::write call")
-        d = describe_operand(pw, ws[0].args[2])
+        d = describe_operand(pw, ws[0].args[2]) if len(ws[0].args) > 2 else "(write is not told how much space is free)"
         r.check("Sub" in d and ".capacity" in d and "len(" in d and ".data" in d, "poll_write/avail=capacity-len", ws[0].loc(), "avail = %s" % d, "avail is not capacity - data.len(): %s" % d)
         g = guards(pw, ws[0].block)
         r.check(any(".capacity" in dd and "0" in dd for dd, l, _ in g), "poll_write/write-only-when-space", ws[0].loc(), "write is reached only on the available != 0 edge",
